@@ -271,7 +271,8 @@ func init() {
 		DesignRef:   "4/C16",
 		Rule:        "case = 8-40 generated actions; non-trivial = at least one accepted update, one rejected for its revision, one invalid TOML, and a restart after an accepted update; distinct = hash of the action list",
 		Assumptions: []string{"configuration posts are issued one after another", "single voter raft in-process"},
-		Units:       []unit{nodeUnit("node", "^TestVerifC16$", 480, 10000)},
+		Units: []unit{nodeUnit("node", "^TestVerifC16$", 480, 10000),
+			{Name: "cluster", Pkg: ".", Harness: "main", Run: "^TestVerifC16Cluster$", Rapid: true, Quick: 4, Thorough: 64, Shards: 4, MinPerShard: 1, Weight: 2, NeedsBinary: true, QuickTimeoutS: 600, ThoroughTimeoutS: 3400}},
 	})
 }
 
@@ -298,7 +299,8 @@ func init() {
 		DesignRef:   "4/C11",
 		Rule:        "case = 7-42 generated steps on up to 5 sessions; non-trivial = contains a probe with a secret that is valid for another live session, or a probe against a deleted session; labels c11:<route>/<target>/<credential> and c11:private/<auth> count histories per class; distinct = hash of the step list",
 		Assumptions: []string{"single voter raft in-process"},
-		Units:       []unit{nodeUnit("node", "^TestVerifC11$", 480, 10000)},
+		Units: []unit{nodeUnit("node", "^TestVerifC11$", 480, 10000),
+			{Name: "cluster", Pkg: ".", Harness: "main", Run: "^TestVerifC11Cluster$", Rapid: true, Quick: 4, Thorough: 64, Shards: 4, MinPerShard: 1, Weight: 2, NeedsBinary: true, QuickTimeoutS: 600, ThoroughTimeoutS: 3400}},
 	})
 }
 
